@@ -235,6 +235,8 @@ def c01(ctx):
     # whole file / line / word: transcribed from the engine (the documents are silent about starts inside a unit); the
     # expectation is firm, and compared, only on texts where a file, line or word really starts at the attempt
     ctx.replay("C01-whole-units", ctx.gen_cases("C03W"), FIELDS["C01"])
+    # named loops find what the unnamed loop finds (minimum, maximum, greedy/fewest; nested named loops)
+    ctx.replay("C01-named-loops", ctx.gen_cases("C03N"), FIELDS["C01"])
     # (2b) seeded random programs beyond the structured scope (any nesting up to 9 nodes)
     rc = random_cases(ctx.seed, 400 if quick else 4000, with_caps=False)
     rexps, _, rc = vm_oracle(ctx, "random", rc, max_steps=20000, invariants=("MatchWF", "NoStuck", "StepBound"), drop_expensive=True)
@@ -1277,6 +1279,15 @@ def c08(ctx):
     lines += [{"text": t} for t in ["find all 'a' --", "find all 'a' --(", "find all 'a' --()", "find all 'a' --()-", "find all 'a' --())", "find all 'a' --()-)",
                                     "find all 'a' ---", "--\nfind all 'a'", "--()-)--find all 'a'", "find all 'a' -", "find all '\\", "find all \"\\",
                                     "find all 'a' = ", "find all 'a' = x =", "find all 'a' = x 'b' = x", "find all {'a'} = s {'b'} = s", "find all at least 1 'a' named x 'b' = x", "find all between 2 and 1 'a'", "find all at most 0 'a'", "find all exactly 0 'a' 'b'"]]
+    # every \\xHH above 0x7f in both quote styles, and incomplete hex escapes followed by other characters
+    for q in ("'", '"'):
+        for b in range(0x80, 0x100):
+            lines.append({"text": "find all %s\\x%02x%s" % (q, b, q)})
+            if b % 16 == 0:
+                lines.append({"text": "find all %s\\x%02X%s" % (q, b + 15, q)})
+        for tail in ("4g", "g4", "1 ", "1", "", "f", "ff", "0", "00", "x41", "\\\\", "4\\\\"):
+            lines.append({"text": "find all %sa\\x%s%s" % (q, tail, q)})
+            lines.append({"text": "find all %s\\x%sb%s 'c'" % (q, tail, q)})
     compile_check(ctx, "C08-edge-sources", lines, "bare")
     ctx.exhaustive = False
     # sensitivity of the lexer model
